@@ -15,7 +15,9 @@ TRUSTED = [
     "harness/gen_spectrum.py + harness/translate.py (Python-ast translator of get_structure_factor / get_length_scale; "
     "validated on every run by interval sample goals and by the correspondence run)",
     "Interval tactic (sample goals only)",
-    "oracle numpy.fft.fftn(norm='ortho'): premise dft_spec (field scaling / translation invariance only)",
+    "oracle numpy.fft.fftn(norm='ortho') computes the mathematical DFT up to rounding: the transform is defined in Coq for "
+    "every shape (Model.Spectrum.dft_math) and proved to satisfy dft_spec and dft_cosine; the C17_math_* theorems carry no "
+    "DFT premise (numpy is compared with the definition and its identities per sample in C16 and on the plane waves here)",
     "oracle scipy.optimize.minimize_scalar: premise minimizer_covariant (ls_peak_covariant only; not checked per sample: "
     "Brent's absolute tolerances 1e-11 / 1e-21 are not scale free, the implementation-level check uses one Fourier bin)",
     "oracle models numpy fftfreq / max / linspace / argmax and pde.tools.math.SmoothData1D (Model/Spectrum.v)",
@@ -680,7 +682,8 @@ def _sample_goals(ctx, rng, py, consts, corr) -> list:
 def check(ctx: vlib.Ctx) -> int:
     sc.quiet()
     rng = random.Random(ctx.seed)
-    ok, fresh = vlib.prove_with_fallback(ctx, ["Proofs/C17.vo", "Model/Samples.vo"], gens=["Gen_spectrum"])
+    ok, fresh = vlib.prove_with_fallback(ctx, ["Proofs/C17.vo", "Proofs/SpectrumMathInst.vo", "Model/Samples.vo"],
+                                         gens=["Gen_spectrum"])
     fell_back = bool(ctx.extra.get("translator_fell_back"))
     ctx.tie.append(("translator (Gen_spectrum regenerated from the current source: the three length-scale formulas, call "
                     "flags, default smoothing, bracket / window lines), validated by interval sample goals and the "
